@@ -207,9 +207,18 @@ structure AuxIn where
   stored : Nat   -- strlen(stored string)+1, what every later release passes
 deriving Repr, DecidableEq
 
-/-- What the reader will find. `kind`: 0 good file; 1 cannot be opened / first HDU unusable (fails
-    before `ndim` is assigned); 2 an `ORDERi` key is missing (fails after the aux store and `order`
-    are allocated); 3 the `KNOTS<arg>` extension is missing (fails before knot vector `arg`). -/
+/-- What the reader will find: the stage of `read_fits_core` at which the read fails (each cfitsio call
+    it makes and each validation it performs belongs to exactly one stage). `kind`: 0 good file;
+    1 cannot be opened / first HDU unusable / dimension count unreadable or < 1 (fails before `ndim`
+    is assigned); 2 an `ORDERi` key is missing or unreadable (fails after the aux store and `order`
+    are allocated); 3 the `KNOTS<arg>` extension is missing, its size unreadable or inconsistent
+    (fails before knot vector `arg` is allocated); 4 the size of the coefficient image cannot be read
+    (fails after `periods`, `knots`, `nknots` and the two `extents` blocks are allocated, before
+    `naxes`); 5 the coefficient pixels cannot be read (fails after the coefficient array is
+    allocated: e.g. a disk file cut short inside the primary data unit); 6 the data of `KNOTS<arg>`
+    cannot be read or are not finite and non-decreasing (fails after knot vector `arg` is
+    allocated); 7 the data of the `EXTENTS` extension cannot be read (fails when everything is
+    allocated).  Any other value behaves like 0. -/
 structure FileDesc where
   kind : Nat
   arg : Nat
@@ -222,17 +231,24 @@ def auxInSteps (c : Cfg) (aux : List AuxIn) : List Step :=
   aux.flatMap fun e =>
     [.a 16, .a e.k] ++ (if c.readAuxExact && e.stored != e.raw then [.swap e.raw e.stored] else [.a e.raw])
 
-def knotSteps (failAt : Option Nat) (dims : List Dim) : List Step :=
+/-- a failure step, present iff `p` -/
+def failIf (p : Prop) [Decidable p] : List Step := if p then [Step.fail] else []
+
+/-- the knot vectors: `failAt = some i`: the read fails before vector `i` is allocated,
+    `failAfter = some i`: after it was allocated (while its data are read / validated) -/
+def knotSteps (failAt failAfter : Option Nat) (dims : List Dim) : List Step :=
   (dims.zipIdx).flatMap fun (d, i) =>
-    (if failAt = some i then [Step.fail] else []) ++ [Step.a (8 * (d.nknots + 2 * d.order))]
+    failIf (failAt = some i) ++ [Step.a (8 * (d.nknots + 2 * d.order))] ++ failIf (failAfter = some i)
 
 /-- `read_fits_core` after `ndim = temp_dim`, in source order. -/
 def readSteps (c : Cfg) (f : FileDesc) : List Step :=
   let n := f.dims.length
   (if f.hasKeys then [Step.a (8 * f.aux.length)] ++ auxInSteps c f.aux else []) ++
-  [.a (4 * n)] ++ (if f.kind = 2 then [.fail] else []) ++
-  [.a (8 * n), .a (8 * n), .a (8 * n), .a (8 * n), .a (16 * n), .a (8 * n), .a (8 * n), .a (4 * ncoef f.dims)] ++
-  knotSteps (if f.kind = 3 then some f.arg else none) f.dims
+  [.a (4 * n)] ++ failIf (f.kind = 2) ++
+  [.a (8 * n), .a (8 * n), .a (8 * n), .a (8 * n), .a (16 * n)] ++ failIf (f.kind = 4) ++
+  [.a (8 * n), .a (8 * n), .a (4 * ncoef f.dims)] ++ failIf (f.kind = 5) ++
+  knotSteps (if f.kind = 3 then some f.arg else none) (if f.kind = 6 then some f.arg else none) f.dims ++
+  failIf (f.kind = 7)
 
 /-- the store keeps, per value, the size every later release will pass: `strlen(stored)+1` -/
 def readAux (aux : List AuxIn) : List Aux :=
